@@ -9,7 +9,7 @@ pub const RIP_L1: &[u8] = b"MKTtECPWIBUD\x1bGRF";
 pub const IGS_CMDS: &[u8] = b"AbBCDEFfgGqHIJkKLzMnNOPQRsStTUVWYZ<?cdilmprvwX";
 pub const GFX_FUEL: u64 = 256 * 640 * 400;
 
-const IGS_VALUES: [i64; 20] = [0, 1, 2, 3, 4, 5, 8, 10, 15, 16, 99, 100, 199, 200, 319, 320, 639, 640, 9999, 99999];
+const IGS_VALUES: [i64; 24] = [0, 1, 2, 3, 4, 5, 8, 10, 15, 16, 99, 100, 199, 200, 319, 320, 639, 640, 9999, 99999, 99999, 1_000_000, 90_000_000, 2_147_483_647];
 
 fn piece(bytes: Vec<u8>, fragile: bool) -> Piece {
     Piece { bytes, fragile, sixel: false }
@@ -117,6 +117,13 @@ fn rip_command(rng: &mut Rng) -> Vec<u8> {
                     v.extend(rip_params(rng, len));
                     if rng.chance(1, 3) {
                         v.extend(b"<>label<>text");
+                    } else if rng.chance(1, 4) {
+                        // labels and text outside ASCII (the stream is bytes, the engine sees U+0080..U+00FF)
+                        v.extend(b"<>");
+                        for _ in 0..1 + rng.usize(6) {
+                            v.push(if rng.chance(1, 2) { 0x80 + rng.below(0x80) as u8 } else { b'a' + rng.below(26) as u8 });
+                        }
+                        v.extend(b"<>t\xe9xt");
                     }
                 }
             }
